@@ -62,6 +62,7 @@ Clause(r) ==
     [] r.op = "start"  -> "none"
     [] r.op = "hb"     -> HbClause(r)
     [] r.op = "end"    -> EndClause(r)
+    [] r.op = "raised" -> "raised"
     [] OTHER           -> "unknown-record"
 
 Init == tid \in 1..Len(Traces) /\ l = 1 /\ evs = {} /\ spect = {} /\ P = 0
